@@ -164,13 +164,38 @@ def body_ranges(text):
     return out
 
 
+def not_compiled_here(lines):
+    """line numbers inside a preprocessor region that is only compiled on Windows (#if defined(_WIN32) ... [#else]) — mutants there
+    are equivalent on this platform"""
+    skip = set()
+    stack = []          # [win_only_now, win_positive]
+    for i, l in enumerate(lines):
+        s = l.strip()
+        if s.startswith("#if"):
+            pos = bool(re.search(r"defined\s*\(?\s*_WIN32|#ifdef\s+_WIN32", s)) and not re.search(r"!\s*defined\s*\(?\s*_WIN32|#ifndef\s+_WIN32", s) and "||" not in s
+            neg = bool(re.search(r"!\s*defined\s*\(?\s*_WIN32|#ifndef\s+_WIN32", s)) and "&&" not in s and "||" not in s
+            stack.append([pos, pos, neg])
+        elif s.startswith("#elif") and stack:
+            stack[-1][0] = False
+        elif s.startswith("#else") and stack:
+            stack[-1][0] = stack[-1][2]
+        elif s.startswith("#endif") and stack:
+            stack.pop()
+        if any(t[0] for t in stack):
+            skip.add(i)
+    return skip
+
+
 def gen(pid, names, files, whole=False):
     out = []
     for p in files:
         text = open(p).read()
         lines = text.split("\n")
+        win = not_compiled_here(lines)
         for (nm, a, b) in (body_ranges(text) if whole else func_ranges(text, names)):
             for ln in range(a, b + 1):
+                if ln in win:
+                    continue
                 for (kind, new) in mutants_of_line(lines[ln]):
                     if new != lines[ln]:
                         out.append(dict(pid=pid, file=os.path.relpath(p, INC), fn=nm, line=ln + 1, kind=kind, old=lines[ln], new=new))
